@@ -49,6 +49,16 @@ CLAIMED = {
          "linear (in)dependence / rank certificates, invariance lemmas used by the generators. Tie to /repo: every listed predicate and helper on matrices of size 1..6 built exactly (Gaussian integers, exact rational unitaries) and perturbed by a margin >= 1e-3; verdicts must agree with the Lean decider; "
          "helper identities by exact equality or exact residuals.",
          "Trusted: Lean kernel + standard axioms; hand-written deciders as the reading of each documented definition (doc/code disagreements listed in DESIGN.md); Python harness. spark, UPB search rank, total positivity minors: executable elimination without a correctness theorem."),
+ "C19": ("Lean 4 state machine for the seeding discipline (induction over call histories) + post-processing theorems over complex matrices + PGM/PBM/measure algebra; histories and exact relation residuals as correspondence",
+         "Kernel-checked: a seeded call's output is a function of (generator, arguments, seed) only, in every history and world; seeded and unseeded toqito calls never disturb the global NumPy stream; each generator's post-processing yields the advertised kind "
+         "(unit-trace PSD of rank <= k, unitary/orthogonal after the QR phase fix, PSD, POVM, Schmidt rank <= k via the mirrored swap/max-entangled construction, circulant PSD Gram); PGM/PBM are POVMs; Born rule, normalised post-states, probabilities sum to one. "
+         "Tie to /repo: random histories of seeded/unseeded/global operations compared with the model's predicted equality pattern and global-stream invariance; every generator x option x dims 1..6 checked through exact relation residuals; PGM within [P_opt^2, P_opt].",
+         "Trusted: Lean kernel + standard axioms; the discipline model; Python harness. Runtime behaviour the model cannot exhibit: PCG64 bit streams, LAPACK QR/SVD/eigh (checked through defining relations), 'different seeds differ' (checked, probabilistic), Barnum-Knill bound (cited)."),
+ "C20": ("Lean 4 weak-duality theorems (cb trace norm, channel fidelity) + verified certificate checkers bracketing the optimum per instance; toqito's value must lie in the certified interval",
+         "Kernel-checked for all dimensions: partial-trace adjointness, weak duality of Watrous' cb-norm SDP and of the channel-fidelity SDP, finiteness, absolute homogeneity, symmetry, zero on equal channels, cb norm = 1 for channels, = lambda_max(Tr_Y J) for CP maps, <= 2 for channel differences, "
+         "Choi lower bound, unitary invariance, channel fidelity symmetric / 1 on equal channels / <= any Choi-state fidelity dual bound; soundness of the four executable checkers (lo <= value <= hi). Per run: qubit/qutrit channel pairs from exact data, certificates from an independent solve repaired exactly, "
+         "toqito's cb trace norm, diamond distance, cb spectral norm, channel fidelity inside [lo - tau, hi + tau]; closed forms and invariances on outputs.",
+         "Trusted: Lean kernel + standard axioms; Mathlib PosSemidef; Python harness; tau = 2e-5 (CVXOPT) / 1e-3 (channel_fidelity: SCS stops inaccurate). Cited: two-unitary closed form, equality of Choi-state fidelity with its SDP. Known finding: CP shortcut of completely_bounded_trace_norm."),
 }
 PENDING_REASON = "check not built yet in this round (work in progress; see DESIGN.md section 7 for the plan)"
 
